@@ -246,7 +246,7 @@ func runSim(w *Workload, prep [][]*Prepared, warm []*Prepared, cfg RunCfg, keepE
 			}
 		})
 	}
-	sim.Run(20 * time.Second)
+	sim.Run(60 * time.Second)
 	simrt.SetPermHook(nil)
 	if sim.NativeBlocked {
 		// not a verdict: the parked goroutines are abandoned, the workload is repeated natively
@@ -394,7 +394,7 @@ func runSequential(w *Workload, prep [][]*Prepared, warm []*Prepared, order [][2
 			out[st[0]][st[1]] = execOp(env, prep[st[0]][st[1]])
 		}
 	})
-	sim.Run(20 * time.Second)
+	sim.Run(60 * time.Second)
 	dead := sim.Deadlock || sim.Capped || sim.NativeBlocked // a single task asleep for good is a sequential deadlock
 	sim.Close()
 	if dead {
